@@ -436,14 +436,16 @@ fn used_type_params<'ty, 'out>(
         Type::Path(TypePath {
             qself: Some(qself), ..
         }) => {
-            // an associated type of something which mentions a type parameter, e.g.
-            // `<T as TS>::OptionInnerType`: both need their bound
+            // An associated type of a type parameter (or of one of its associated types), e.g.
+            // `<T as TS>::OptionInnerType`, needs a bound of its own. If the self type is something
+            // else (`<Vec<T> as TS>::..`), the bound on `T` lets the compiler work it out, and a
+            // bound on the projection would only get in its way.
             let mut inner = HashSet::new();
             used_type_params(&mut inner, &qself.ty, is_type_param);
-            if !inner.is_empty() {
+            if inner.contains(&qself.ty.as_ref()) {
                 out.insert(ty);
-                out.extend(inner);
             }
+            out.extend(inner);
         }
         Type::Path(TypePath { qself: None, path }) => {
             let first = path.segments.first().unwrap();
